@@ -220,3 +220,8 @@ pub fn from_int_result_empty<E: IntError>(res: i32) -> Result<(), E> {
         Some(e) => Err(E::from_int_err(e)),
     }
 }
+
+#[cfg(kani)]
+mod verif_kani {
+    include!(concat!(env!("H33P_CGLUE_VERIF_DIR"), "/result.rs"));
+}
